@@ -37,9 +37,26 @@ class FallbackMonitor(Monitor):
             sil[(nid, ev[1])] = 0.0
         dt = tick_dt(cfg, ev)
         became = post.leader_flag and not pre.leader_flag
+        # votes received for the term it is campaigning in count as "heard from" at the moment it wins
+        heardv = set(x[1] for x in sil if x[0] == ('votes', nid))
+        if k == 'D' and pre.alive and not pre.leader_flag and pre.voter:
+            q = pre_w.queue(ev[1], ev[2])
+            if q and b'response_vote' in q[0]:
+                import pickle
+                mm = pickle.loads(q[0])
+                if mm.get('type') == 'response_vote' and mm.get('term') == post.term:
+                    sil[(('votes', nid), ev[1])] = post.term
+                    heardv.add(ev[1])
+        for kk in [kk for kk in sil if kk[0] == ('votes', nid) and sil[kk] != post.term]:
+            del sil[kk]
         if became:
+            # the implementation restarts all its timers when it wins; what the property needs is that it has
+            # heard from a majority: the voters of this term (a one-node cluster needs nobody)
             for o in post.others:
-                sil[(nid, o)] = 0.0
+                if (('votes', nid), o) in sil or k != 'D' and len(post.others) == 0:
+                    sil[(nid, o)] = 0.0
+                else:
+                    sil[(nid, o)] = cfg.fallback * 2 + 1.0
         elif dt is not None and pre.leader_flag:
             for o in pre.others:
                 sil[(nid, o)] = round(sil.get((nid, o), 0.0) + dt, 6)
@@ -52,10 +69,13 @@ class FallbackMonitor(Monitor):
         if not post.leader_flag:
             for kk in [kk for kk in sil if kk[0] == nid]:
                 del sil[kk]
+        else:
+            for kk in [kk for kk in sil if kk[0] == ('votes', nid)]:
+                del sil[kk]
         # cap silence values so that the ghost does not grow without bound
         cap = cfg.fallback * 2 + 1.0
         for kk in sil:
-            if sil[kk] > cap:
+            if not isinstance(kk[0], tuple) and sil[kk] > cap:
                 sil[kk] = cap
         # --- no SUCCESS while cut off
         cs = set(cutsubs)
@@ -69,7 +89,7 @@ class FallbackMonitor(Monitor):
             for n in set(n for n, _ in cs):
                 if self.phys_majority(model, post_w, n):
                     cs = set(x for x in cs if x[0] != n)
-        return (tuple(sorted(sil.items())), tuple(sorted(cs)))
+        return (tuple(sorted(sil.items(), key=repr)), tuple(sorted(cs)))
 
     def after_reconnect(self, model, w, g):
         return g
